@@ -93,7 +93,14 @@ def run(eng, rep, tier):
                     ctr_names.add(sub.args[0].id)          # a monotone iterator: `numbers = count()`
     resets = [s for s in ast.walk(fi.node) if isinstance(s, ast.Assign) and any(isinstance(tg, ast.Name) and tg.id in ctr_names
                                                                                 for tg in s.targets)]
-    if not ctr_names:
+    from .flow import enumerate_offsets
+    enum = enumerate_offsets(fi.node)
+    if enum is not None and set(enum[2]) & ctr_names:
+        # the numbers come from enumerate(): disjoint iff every pass starts where the previous ones ended
+        ob.decide("R5", "C10.1", fi, "counter-shared-across-operands", enum[0],
+                  "the renamed variables are numbered by enumerate passes that each start where the previous ones ended",
+                  "the renaming numbers of different operands can coincide: " + enum[1], None, site=site_of(prog, fi, fi.node))
+    elif not ctr_names:
         verdict = _counter_through_helper(prog, fi)
         if verdict is None:
             rep.error("R5", "C10.1", fi.qname, "counter-shared-across-operands",
